@@ -158,5 +158,31 @@ func c07Contract(ctx *Ctx, i int, drv int, rng *rand.Rand) {
 		}
 	}
 	ctx.Count(fmt.Sprintf("contract:timelocked=%v", d.Timelocked))
-	ctx.Emit(Case{I: i, Kind: "contract-" + driverNames[drv], Desc: d, Monitor: mon})
+	// the same history for the deposit-cache model (Deposit.v): deposit, forced-settlement
+	// request, [the pool starts: empty cache], earnings, the withdrawals back to back, then the
+	// settlements are mined
+	coq := ""
+	if want.Sign() >= 0 {
+		var ops []string
+		if deposit.Sign() > 0 {
+			ops = append(ops, "DDeposit "+cBig(deposit))
+		}
+		if d.Timelocked {
+			ops = append(ops, "DForce")
+		}
+		ops = append(ops, "DRestart", "DEarn "+cBig(credit)) // the pool process starts after the deposit: its cache is empty
+		for r := 0; r < rounds; r++ {
+			ops = append(ops, "DWithdraw")
+		}
+		for r := 0; r < rounds; r++ {
+			ops = append(ops, "DMine")
+		}
+		min := "None"
+		if pay.WithdrawMin != nil {
+			min = "(Some " + cBig(pay.WithdrawMin) + ")"
+		}
+		coq = fmt.Sprintf("C7Contract {| cc_cfg := {| dc_fee := %s; dc_min := %s; dc_refresh_on_settle := true |}; cc_ops := %s; cc_received := %s; cc_left_chain := %s; cc_left_credit := %s |}",
+			cBig(fee), min, cList(ops), cBig(received), cBig(onAfter.Balance), cBig(&ledAfter.Credit))
+	}
+	ctx.Emit(Case{I: i, Kind: "contract-" + driverNames[drv], Coq: coq, Desc: d, Monitor: mon})
 }
